@@ -20,6 +20,8 @@ static rc::Gen<Op> c03_op()
 	    {1, op_gen(CONNECT, zero(), rng(0, 3), rng(0, 4), zero(), zero(), zero(), nojoin())},
 	    {2, op_gen(END, conn, rng(0, 3), zero(), zero(), zero(), zero(), jn)},
 	    {1, op_gen(INFO, conn, zero(), zero(), zero(), zero(), idmode(), jn)},
+	    // more requests in flight to one owner than its routing table can hold (c = 64: expanded by c03_gen): each surplus one gets an error
+	    {1, op_gen(CALL, conn, rc::gen::just(1), val, rc::gen::just(64), zero(), zero(), nojoin())},
 	    {1, op_gen(FETCH, conn, rng(0, 4), rng(0, 10), zero(), zero(), idmode(), jn)},
 	});
 }
@@ -32,7 +34,13 @@ static rc::Gen<Scenario> c03_gen()
 		// every scenario starts with something routable
 		{ Op o; o.kind = ADD; o.conn = 0; o.a = 0; o.b = 1; sc.ops.push_back(o); }
 		{ Op o; o.kind = ADD; o.conn = 0; o.a = 1; o.b = -1; sc.ops.push_back(o); }
-		for (auto &o : ops) sc.ops.push_back(o);
+		for (auto &o : ops) {
+			if (o.kind == CALL && o.c == 64) {
+				for (int i = 0; i < 72; i++) { Op c = o; c.c = 0; c.join = false; c.idm = (i % 2) ? ID_STR : ID_NUM; sc.ops.push_back(c); } // (single steps: a refusal is judged per request)
+				continue;
+			}
+			sc.ops.push_back(o);
+		}
 		sc.order_seed = order_seed; sc.end = end;
 		return sc;
 	}, rc::gen::container<std::vector<int>>(rng(0, 3)).as("transports"), rc::gen::container<std::vector<Op>>(c03_op()), rng(0, 4), rng(0, 2));
